@@ -121,8 +121,26 @@ def c06_kernels(isa):
                         load = load.replace("[x1", "[" + ldbase)
                         out.append([f"str x7, {st}"] + bump + [f"ldr x8, {load}"])
                         out.append([f"str x7, {st}"] + bump + [f"str x9, {st}", f"ldr x8, {load}"])
+        # the store's own write-back, seen through a copy (so that the register dependency on the base does not mask it)
+        for st, eff in (("[x1], #8", 8), ("[x1, #8]!", 0), ("[x1], #-16", -16)):
+            for cp, extra in (("mov x4, x1", 0), ("add x4, x1, #8", 8), ("sub x4, x1, #8", -8)):
+                for d in (-16, -8, 0, 8, 16):
+                    out.append([f"str x7, {st}", cp, f"ldr x8, [x4, #{d}]"])
+                    out.append([f"stp x7, x9, {st.replace('#8', '#16').replace('#-16', '#-32')}", cp, f"ldr x8, [x4, #{d}]"])
+        # bump, copy, bump of the copy, then loads through the original and through the copy
+        for d in (-16, -8, 0, 8, 16, 24):
+            out.append(["str x7, [x1, #16]", "add x1, x1, #8", "add x4, x1, #8", f"ldr x8, [x1, #{d}]", f"ldr x10, [x4, #{d}]"])
+            out.append(["str x7, [x1, #16]", "add x1, x1, #8", "mov x4, x1", "add x4, x4, #8", f"ldr x8, [x1, #{d}]", f"ldr x10, [x4, #{d}]"])
         out += [["str x7, [x1, #8]", "ldr x8, [x1, #8]", "ldr x9, [x1, #8]", "ldr x10, [x1, #8]"], ["str x7, [x1], #8", "ldr x8, [x1, #-8]"], ["str x7, [x1, #8]!", "ldr x8, [x1]"], ["str x7, [x1], #8", "ldr x8, [x1]"]]
     if isa == "x86":
+        for d in (-16, -8, 0, 8, 16, 24):
+            out.append(["movq %rsi, 8(%rax)", "addq $8, %rax", "movq %rax, %rdx", "addq $8, %rdx", f"movq {d}(%rax), %rcx", f"movq {d}(%rdx), %rdi"])
+            # read-modify-write stores: the memory operand is not the first destination (flags come first)
+            for rmw in ("addq $1, 8(%rax)", "subq %rsi, 8(%rax)", "incq 8(%rax)", "addq $1, 8(%rax,%rbx,8)", "incq 8(%rax,%rbx,8)"):
+                idx = ",%rbx,8" if "rbx" in rmw else ""
+                for bump in ([], ["addq $8, %rax"], ["incq %rbx"], ["movq %rax, %rdx"]):
+                    base = "rdx" if bump == ["movq %rax, %rdx"] else "rax"
+                    out.append([rmw] + bump + [f"movq {d}(%{base}{idx}), %rdi"])
         out += [["movq %rsi, 8(%rax)", "movq 8(%rax), %rdi", "movq 8(%rax), %r8", "movq 8(%rax), %r9"],
                 ["movq %rsi, (%rax)", "addq $8, %rax", "movq -8(%rax), %rdi", "movq -8(%rax), %r8"]]
     return out
@@ -264,6 +282,17 @@ def main():
         cases = [c for c in cases if len(c[2]) >= 2]
         if A.tier != "thorough":
             cases = cases[::4]
+        # cycles through memory: store (also read-modify-write, whose memory operand is not its first destination),
+        # pointer bump, load of the stored location; every rotation must report the same cycles
+        memk = {"x86": [["addq $8, %rbx", "addq %rdx, 8(%rbx)", "movq 8(%rbx), %rdx", "cmpq %rsi, %rbx"], ["incq 8(%rbx,%rcx,8)", "movq 8(%rbx,%rcx,8), %rdx", "incq %rcx"],
+                        ["addq %rdx, 8(%rbx)", "addq $8, %rbx", "movq (%rbx), %rdx"], ["incq 16(%rbx,%rcx,8)", "incq %rcx", "movq 8(%rbx,%rcx,8), %rdx", "addq %rdx, %rsi"],
+                        ["movq %rdx, 8(%rbx)", "addq $8, %rbx", "movq (%rbx), %rdx"], ["subq %rdx, (%rax)", "vaddpd %xmm0, %xmm1, %xmm2", "addq $16, %rax", "movq -16(%rax), %rdx"],
+                        ["movq %rdx, 8(%rbx)", "movq %rbx, %rcx", "addq $8, %rcx", "movq (%rcx), %rdx"]],
+                "aarch64": [["add x2, x2, #8", "str x1, [x2, #8]", "ldr x1, [x2, #8]", "cmp x2, x3"], ["str x1, [x2], #8", "ldr x1, [x2, #-8]"], ["str x1, [x2, #16]", "add x2, x2, #8", "ldr x1, [x2, #8]"], ["str x1, [x2, #8]!", "ldr x1, [x2]"],
+                            ["str x1, [x2], #8", "mov x4, x2", "ldr x1, [x4, #-8]", "add x5, x5, #1"], ["str x1, [x2, #8]", "add x4, x2, #8", "ldr x1, [x4]"]]}
+        for isa, archs in MODELS.items():
+            for arch in archs:
+                cases += [(isa, arch, k, False, 1) for k in memk[isa]]
     # group by arch so that each worker loads few models
     cases.sort(key=lambda c: c[1])
     for isa, archs in MODELS.items():  # load every model once before forking (workers inherit it; avoids the
